@@ -76,7 +76,7 @@ DIMS = [
     ("secure", [0, 1]),
     ("exp", ["-", "ma10", "ma0", "past", "fut", "ma-1", "mabad", "epoch", "mabad+past", "mabad+fut", "mahuge"]),
     ("name", ["n", "m"]),
-    ("val", ["u", "same", "u+flag", "u+kv"]),
+    ("val", ["u", "same", "u+flag", "u+kv", "u+h2dom", "u+h2path", "u+h2age"]),
 ]
 QUICK_DIMS = [
     ("host", ["E", "S", "O", "N", "I"]),
@@ -88,7 +88,9 @@ QUICK_DIMS = [
     ("name", ["n", "m"]),
     # "same": a constant value, so that a re-issued cookie can equal the stored one; "+flag"/"+kv": an attribute this
     # implementation does not know (valueless / with a value) right behind the pair - RFC 6265 5.2: ignored
-    ("val", ["u", "same", "u+flag", "u+kv"]),
+    # "+h2...": a second Set-Cookie header in the same response that consists of an attribute-like pair only; it is
+    # not an attribute of the first header's cookie (aiohttp refuses a cookie with a reserved name: nothing is stored for it)
+    ("val", ["u", "same", "u+flag", "u+kv", "u+h2dom", "u+h2path", "u+h2age"]),
 ]
 
 
@@ -175,7 +177,11 @@ class Sim:
                 url = URL(f"http://{HOSTS[host]}{RPATH[rpath]}")
                 if str(_val).endswith("+kv"):
                     self.kv_seen = True
-                self.jar.update_cookies_from_headers([header_of(op)], url)
+                hdrs_ = [header_of(op)]
+                second = {"+h2dom": "domain=example.com", "+h2path": "path=/", "+h2age": "max-age=0"}.get(str(_val)[1:])
+                if second:
+                    hdrs_.append(second)
+                self.jar.update_cookies_from_headers(hdrs_, url)
                 ma, ex = EXP[exp]
                 before = set(self.ref.store)
                 self.ref.set_cookie(self.now, HOSTS[host], RPATH[rpath], name, value_of(op), DOM[dom], PATH[path],
